@@ -12,7 +12,7 @@ sed -i "s#\"/repo#\"$L/repo#g" $L/verif/harness/Cargo.toml $L/verif/harness-sche
 cp /verif/known_findings.json $L/verif/
 export CARGO_NET_OFFLINE=true FV_REPO=$L/repo FV_VERIF=$L/verif
 for d in "$@"; do
-  id=$(basename $d | cut -d- -f1)
+  id=${CHECK:-$(basename $d | cut -d- -f1)}
   name=$(basename $d)
   git -C $L/repo checkout -q -- . 
   git -C $L/repo apply $d/patch.diff || { echo "RESULT patch=$name APPLY-FAILED"; continue; }
